@@ -8,7 +8,7 @@ import Poulpy.Lemmas.LweDecrypt
 
 `KsDec.glwe_keyswitch_decrypts_adm` (`Lemmas/KsHeadRoom.lean`) replaces the three hypotheses on the executed product buffer (`hHp0`, `hAcc`,
 `hprod`, and the variable `Hp`) of `glwe_keyswitch_decrypts` by a bound `Dm` on the key digits and ONE decidable inequality.  This file gives
-the same `_adm` form of every other end-to-end theorem that carried those hypotheses.  Each is a thin wrapper: `Hp := prodBound' …`, `hprod`
+the same `_adm` form of every other end-to-end theorem that carried those hypotheses.  Each is a thin wrapper: `Hp := prodBound …`, `hprod`
 from `prodOf_conv_bound`.
 
 * Part 1 — `glwe_automorphism_decrypts_adm`, `glwe_automorphism_assign_decrypts_adm` (`ksAdmissible`, as the key switch).
@@ -66,9 +66,9 @@ theorem glwe_automorphism_decrypts_adm (big128 : Bool) (N bout sout rout : Nat) 
   have hrout' : rout + 1 = key.mat.colsOut := by rw [hrout]; unfold Ks.Key.rankOut; omega
   have hpk : (0 : Int) < 2 ^ key.base2k := by positivity
   exact glwe_automorphism_decrypts big128 N bout sout rout a key sk gInv EL KL Hin
-    (prodBound' key.dsize key.mat.colsIn key.mat.rows N (Hin + 2 ^ key.base2k) Dm)
+    (prodBound key.dsize key.mat.colsIn key.mat.rows N (Hin + 2 ^ key.base2k) Dm)
     hN hg hsk hinv ha hrank hrout hc0 hD hM hS hbi1 hbi hbk1 hbk hbo1 hbo hIn0 hIn hInB
-    (prodBound'_nonneg _ _ _ _ _ _ (by linarith) hDm0) hadm
+    (prodBound_nonneg _ _ _ _ _ _ (by linarith) hDm0) hadm
     (prodOf_conv_bound N rout a key Hin Dm ha hrout' hD hbi1 hbi hbk1 hbk hIn0 hIn hInB hDm0 hDmB)
     hs hEL hKL hkey hcov1 hcov2
 
@@ -115,7 +115,7 @@ theorem glwe_automorphism_assign_decrypts_adm (big128 : Bool) (N : Nat) (a : Ks.
 
 /-- the digits of the example key `exKeyG3` are bounded by `1` -/
 theorem exG3_Dm (j q : Nat) : normInf (exKeyG3.mat.entry j q) ≤ 1 :=
-  entry_normInf' exKeyG3.mat 1 (by norm_num) (by decide) j q
+  entry_normInf exKeyG3.mat 1 (by norm_num) (by decide) j q
 
 /-- closed instance: `glwe_automorphism` with `g = 3` on `N = 2`, both accumulator widths — no hypothesis on the product buffer, the
 admissibility by `decide` -/
@@ -143,7 +143,7 @@ example (big128 : Bool) :
 /-- **admissible shape of a fused automorphism**: as `ksAdmShape`, with the operand added to the product bounded by `2·(Hin + 2^b_key)`
 (the body of the converted input, and the converted input added or subtracted after the automorphism). -/
 def fusedAdmShape (bits dsize colsIn rows N bkey : Nat) (Hin Dm : Int) : Prop :=
-  prodAdmissible' bits dsize colsIn rows N (Hin + 2 ^ bkey) Dm (2 * (Hin + 2 ^ bkey))
+  prodAdmissible bits dsize colsIn rows N (Hin + 2 ^ bkey) Dm (2 * (Hin + 2 ^ bkey))
 
 instance (bits dsize colsIn rows N bkey : Nat) (Hin Dm : Int) : Decidable (fusedAdmShape bits dsize colsIn rows N bkey Hin Dm) := by
   unfold fusedAdmShape; infer_instance
@@ -158,7 +158,7 @@ instance (big128 : Bool) (key : Ks.Key) (N : Nat) (Hin Dm : Int) : Decidable (fu
 
 theorem fusedAdmissible_iff (big128 : Bool) (key : Ks.Key) (N : Nat) (Hin Dm : Int) :
     fusedAdmissible big128 key N Hin Dm ↔
-      prodBound' key.dsize key.mat.colsIn key.mat.rows N (Hin + 2 ^ key.base2k) Dm + 2 * (Hin + 2 ^ key.base2k) + 8
+      prodBound key.dsize key.mat.colsIn key.mat.rows N (Hin + 2 ^ key.base2k) Dm + 2 * (Hin + 2 ^ key.base2k) + 8
         ≤ 2 ^ (bitsOf big128 - 2) := Iff.rfl
 
 theorem fusedAdmissible_iff_shape (big128 : Bool) (key : Ks.Key) (N : Nat) (Hin Dm : Int) :
@@ -223,9 +223,9 @@ theorem glwe_automorphism_fused_decrypts_any_adm (f : Ks.Fused) (big128 : Bool) 
   have hrout' : rout + 1 = key.mat.colsOut := by rw [hrout]; unfold Ks.Key.rankOut; omega
   have hpk : (0 : Int) < 2 ^ key.base2k := by positivity
   exact glwe_automorphism_fused_decrypts_any f big128 N bout sout rout a key dft0 sk gInv EL KL Hin
-    (prodBound' key.dsize key.mat.colsIn key.mat.rows N (Hin + 2 ^ key.base2k) Dm)
+    (prodBound key.dsize key.mat.colsIn key.mat.rows N (Hin + 2 ^ key.base2k) Dm)
     hN hg hsk hinv ha hrank hrout hra hc0 hD hM hS hbi1 hbi hbk1 hbk hbo1 hbo hIn0 hIn hInB
-    (prodBound'_nonneg _ _ _ _ _ _ (by linarith) hDm0) hadm
+    (prodBound_nonneg _ _ _ _ _ _ (by linarith) hDm0) hadm
     (prodOf_conv_bound N rout a key Hin Dm ha hrout' hD hbi1 hbi hbk1 hbk hIn0 hIn hInB hDm0 hDmB)
     hs hEL hKL hkey hcov1 hcov2 hdwf hdn hdc hds hdm
 
@@ -273,9 +273,9 @@ theorem glwe_automorphism_add_decrypts_any_adm (big128 : Bool) (N bout sout rout
   have hrout' : rout + 1 = key.mat.colsOut := by rw [hrout]; unfold Ks.Key.rankOut; omega
   have hpk : (0 : Int) < 2 ^ key.base2k := by positivity
   exact glwe_automorphism_add_decrypts_any big128 N bout sout rout a key dft0 sk gInv EL KL Hin
-    (prodBound' key.dsize key.mat.colsIn key.mat.rows N (Hin + 2 ^ key.base2k) Dm)
+    (prodBound key.dsize key.mat.colsIn key.mat.rows N (Hin + 2 ^ key.base2k) Dm)
     hN hg hsk hinv ha hrank hrout hra hc0 hD hM hS hbi1 hbi hbk1 hbk hbo1 hbo hIn0 hIn hInB
-    (prodBound'_nonneg _ _ _ _ _ _ (by linarith) hDm0) hadm
+    (prodBound_nonneg _ _ _ _ _ _ (by linarith) hDm0) hadm
     (prodOf_conv_bound N rout a key Hin Dm ha hrout' hD hbi1 hbi hbk1 hbk hIn0 hIn hInB hDm0 hDmB)
     hs hEL hKL hkey hcov1 hcov2 hdwf hdn hdc hds hdm
 
@@ -323,9 +323,9 @@ theorem glwe_automorphism_sub_decrypts_any_adm (big128 : Bool) (N bout sout rout
   have hrout' : rout + 1 = key.mat.colsOut := by rw [hrout]; unfold Ks.Key.rankOut; omega
   have hpk : (0 : Int) < 2 ^ key.base2k := by positivity
   exact glwe_automorphism_sub_decrypts_any big128 N bout sout rout a key dft0 sk gInv EL KL Hin
-    (prodBound' key.dsize key.mat.colsIn key.mat.rows N (Hin + 2 ^ key.base2k) Dm)
+    (prodBound key.dsize key.mat.colsIn key.mat.rows N (Hin + 2 ^ key.base2k) Dm)
     hN hg hsk hinv ha hrank hrout hra hc0 hD hM hS hbi1 hbi hbk1 hbk hbo1 hbo hIn0 hIn hInB
-    (prodBound'_nonneg _ _ _ _ _ _ (by linarith) hDm0) hadm
+    (prodBound_nonneg _ _ _ _ _ _ (by linarith) hDm0) hadm
     (prodOf_conv_bound N rout a key Hin Dm ha hrout' hD hbi1 hbi hbk1 hbk hIn0 hIn hInB hDm0 hDmB)
     hs hEL hKL hkey hcov1 hcov2 hdwf hdn hdc hds hdm
 
@@ -373,9 +373,9 @@ theorem glwe_automorphism_sub_negate_decrypts_any_adm (big128 : Bool) (N bout so
   have hrout' : rout + 1 = key.mat.colsOut := by rw [hrout]; unfold Ks.Key.rankOut; omega
   have hpk : (0 : Int) < 2 ^ key.base2k := by positivity
   exact glwe_automorphism_sub_negate_decrypts_any big128 N bout sout rout a key dft0 sk gInv EL KL Hin
-    (prodBound' key.dsize key.mat.colsIn key.mat.rows N (Hin + 2 ^ key.base2k) Dm)
+    (prodBound key.dsize key.mat.colsIn key.mat.rows N (Hin + 2 ^ key.base2k) Dm)
     hN hg hsk hinv ha hrank hrout hra hc0 hD hM hS hbi1 hbi hbk1 hbk hbo1 hbo hIn0 hIn hInB
-    (prodBound'_nonneg _ _ _ _ _ _ (by linarith) hDm0) hadm
+    (prodBound_nonneg _ _ _ _ _ _ (by linarith) hDm0) hadm
     (prodOf_conv_bound N rout a key Hin Dm ha hrout' hD hbi1 hbi hbk1 hbk hIn0 hIn hInB hDm0 hDmB)
     hs hEL hKL hkey hcov1 hcov2 hdwf hdn hdc hds hdm
 
@@ -422,9 +422,9 @@ theorem glwe_automorphism_fused_assign_decrypts_any_adm (f : Ks.Fused) (big128 :
   have hrout' : a.rank + 1 = key.mat.colsOut := by rw [hrout]; unfold Ks.Key.rankOut; omega
   have hpk : (0 : Int) < 2 ^ key.base2k := by positivity
   exact glwe_automorphism_fused_assign_decrypts_any f big128 N a key dft0 sk gInv EL KL Hin
-    (prodBound' key.dsize key.mat.colsIn key.mat.rows N (Hin + 2 ^ key.base2k) Dm)
+    (prodBound key.dsize key.mat.colsIn key.mat.rows N (Hin + 2 ^ key.base2k) Dm)
     hN hg hsk hinv ha hrank hrout hc0 hD hM hS hbi1 hbi hbk1 hbk hIn0 hIn hInB
-    (prodBound'_nonneg _ _ _ _ _ _ (by linarith) hDm0) hadm
+    (prodBound_nonneg _ _ _ _ _ _ (by linarith) hDm0) hadm
     (prodOf_conv_bound N a.rank a key Hin Dm ha hrout' hD hbi1 hbi hbk1 hbk hIn0 hIn hInB hDm0 hDmB)
     hs hEL hKL hkey hcov1 hcov2 hdwf hdn hdc hds hdm
 
@@ -484,13 +484,13 @@ structure KsSideAdm (big128 : Bool) (N bout sout rout : Nat) (a : Ks.Ct) (key : 
   hcov1 : convSize a key ≤ key.mat.size
   hcov2 : convSize a key ≤ key.mat.rows * key.dsize
 
-/-- **`KsSide.of_adm`** — the side conditions of `glwe_keyswitch_decrypts` from digit bounds and admissibility: `Hp := prodBound' …`, `hprod`
+/-- **`KsSide.of_adm`** — the side conditions of `glwe_keyswitch_decrypts` from digit bounds and admissibility: `Hp := prodBound …`, `hprod`
 by `prodOf_conv_bound` (which needs the well-formedness and the digit bound of the input, not part of `KsSide`). -/
 theorem KsSide.of_adm {big128 : Bool} {N bout sout rout : Nat} {a : Ks.Ct} {key : Ks.Key} {sIn skOut : List Poly}
     {EL KL : ℕ → ℕ → Poly} {Hin Dm : Int} (h : KsSideAdm big128 N bout sout rout a key sIn skOut EL KL Hin Dm)
     (ha : GWF N a) (hInB : ∀ c ∈ a.cols, ∀ l ∈ c, ∀ x ∈ l, |x| ≤ Hin) :
     KsSide big128 N bout sout rout a key sIn skOut EL KL Hin
-      (prodBound' key.dsize key.mat.colsIn key.mat.rows N (Hin + 2 ^ key.base2k) Dm) := by
+      (prodBound key.dsize key.mat.colsIn key.mat.rows N (Hin + 2 ^ key.base2k) Dm) := by
   have hrout' : rout + 1 = key.mat.colsOut := by
     have := h.hrout; have := h.hc0
     rw [h.hrout]; unfold Ks.Key.rankOut; omega
@@ -499,7 +499,7 @@ theorem KsSide.of_adm {big128 : Bool} {N bout sout rout : Nat} {a : Ks.Ct} {key 
   exact
     { hN := h.hN, hrank := h.hrank, hrout := h.hrout, hc0 := h.hc0, hD := h.hD, hM := h.hM, hS := h.hS, hbi1 := h.hbi1, hbi := h.hbi,
       hbk1 := h.hbk1, hbk := h.hbk, hbo1 := h.hbo1, hbo := h.hbo, hIn0 := h.hIn0, hIn := h.hIn,
-      hHp0 := prodBound'_nonneg _ _ _ _ _ _ (by linarith) h.hDm0
+      hHp0 := prodBound_nonneg _ _ _ _ _ _ (by linarith) h.hDm0
       hAcc := h.hadm
       hprod := prodOf_conv_bound N rout a key Hin Dm ha hrout' h.hD h.hbi1 h.hbi h.hbk1 h.hbk h.hIn0 h.hIn hInB h.hDm0 h.hDmB
       hs := h.hs, hEL := h.hEL, hKL := h.hKL, hkey := h.hkey, hcov1 := h.hcov1, hcov2 := h.hcov2 }
@@ -580,7 +580,7 @@ theorem lwe_to_glwe_decrypts_adm (big128 : Bool) (n bout sout rout : Nat) (a : K
 
 /-- the digits of the example key `exKey11` are bounded by `1` -/
 theorem exKey11_Dm (j q : Nat) : normInf (exKey11.mat.entry j q) ≤ 1 :=
-  entry_normInf' exKey11.mat 1 (by norm_num) (by decide) j q
+  entry_normInf exKey11.mat 1 (by norm_num) (by decide) j q
 
 /-- `exKey11_side` without any hypothesis on the product buffer: key digits `≤ 1`, admissibility by `decide` -/
 theorem exKey11_sideAdm (big128 : Bool) (a : Ks.Ct) (hr : a.rank = 1) (hb : a.base2k = 4) (hsz : a.size = 1) :
